@@ -181,6 +181,21 @@ def discover_locals(fn, DDLC, CDC, CB2):
     return N
 
 
+def setup_surface_registration(cstr):
+    """Phreeqc::setup_surface (prep.cpp), CD-MUSIC branch: where the SURFACE (site mole-balance) unknown of EVERY site type is
+    appended to the comp_unknowns of its surface's plane-0 charge unknown: number of such statements, number of enclosing loops,
+    enclosing if-conditions"""
+    fs = load_function(os.path.join(vlib.REPO, "src/phreeqcpp/prep.cpp"), "setup_surface")
+    regs = [x for x in fs.sites if x.kind == "call" and x.lhs.endswith("comp_unknowns.push_back")]
+    if not regs:
+        raise LeafError("no comp_unknowns.push_back in setup_surface")
+    r = regs[0]
+    depth = len([1 for t, c in r.conds if t == "loop"])
+    guards = [c for t, c in r.conds if t in ("if", "switch")]
+    return ("Definition setup_surface_comp_reg_count : Z := %d.\nDefinition setup_surface_comp_reg_loop_depth : Z := %d.\n"
+            "Definition setup_surface_comp_reg_guards : list string := [%s]." % (len(regs), depth, "; ".join(cstr(g) for g in guards)))
+
+
 def calc_all_g_structure():
     """loop structure of Phreeqc::calc_all_g (integrate.cpp): where the per-surface cache of integrated charge numbers (the local
     std::map<LDBLE, cxxSurfDL>) is declared / cleared / looked up, as numbers of enclosing loops"""
@@ -305,6 +320,9 @@ def _generate(errors):
     # --- CD-MUSIC plane 0: psi_k, sigma0, residual
     for k in range(3):
         lf("cd_psi%d" % k, [LAP[k], "LOG_10", "tk_x"], lhs="cd_psi.push_back", under=[CDC, G0], nth=k)
+    # the master-charge sum of plane 0: sum over the comp_unknowns (site mole-balance unknowns of this surface) of sites * z_master
+    add(fn, "cd_sum0_term", vars=["x[i]->comp_unknowns[j]->moles", "x[i]->comp_unknowns[j]->master[0]->s->z"], allow_new_vars=False,
+        increment=True, lhs=N["sum0"], under=[CDC, G0])
     lf("cd_sigma0", [F_, N["sum0"], AREA, GRAMS], lhs="charge_ptr->Set_sigma0", under=[CDC, G0])
     lf("cd_res0", [S0, C0, "cd_psi[0]", "cd_psi[1]"], lhs="residual[i]", under=[CDC, G0])
     # --- CD-MUSIC plane 1
@@ -399,6 +417,12 @@ def _generate(errors):
     fi = load_function(os.path.join(vlib.REPO, "src/phreeqcpp/Phreeqc.cpp"), "init")
     add(fi, "c20_LOG_10", lhs="LOG_10", vars=[])
 
+    try:
+        extra.append(setup_surface_registration(cstr))
+    except LeafError as ex:
+        errors.append("setup_surface: %s" % ex)
+        extra.append("Definition setup_surface_comp_reg_count : Z := 0.\nDefinition setup_surface_comp_reg_loop_depth : Z := -1.\n"
+                     "Definition setup_surface_comp_reg_guards : list string := [].")
     try:
         extra.append(calc_all_g_structure())
     except LeafError as ex:
